@@ -14,7 +14,7 @@ RULE = (
     "f>a; W2 f>a, f(a)>b, an Overlay.tapping block on f>a and a total probe g(c, f(b)) whose subscriber "
     "raises when g ends; W3 f>a plus an overlay on h>e and a probe on h>d where h is permanently tooled; W4 f>a, f>b, an overlay "
     "object on f>a that may be entered a second time while it is entered, and an overlay derived from it by "
-    "fork() (sharing its handler) with one more handler, nested in any order; W5 f>a, the overlay on f>a and a "
+    "fork() (sharing its handler) with one more handler, nested in any order; W5 f>a and a "
     "probe on the generator function t, with {start, advance, close, drop} of one generator of t as extra "
     "operations (what the generator body itself delivers is not asserted, only the state and every call); "
     "W2 and W3 also have a call inside a block shielded by no_overlay() (nothing is delivered) and an "
@@ -115,7 +115,7 @@ WORLDS = {
     # W4: the same overlay object entered twice, and an overlay derived from it by fork(), nested in any order
     "W4": (0, 1, 4, 10),
     # W5: a generator of t is started, advanced, closed or dropped at any point of the history
-    "W5": (0, 4, 11),
+    "W5": (0, 11),
     # W6: global probes are activated / deactivated by code that runs inside a call of k
     "W6": (0, 12),
 }
@@ -184,7 +184,7 @@ class System:
         if wstack:
             ops.append(("leave", wstack[-1]))
             ops.append(("leave_exc", wstack[-1]))
-        if self.with_bad:
+        if self.with_bad and self.wname not in ("W5", "W6"):
             ops.append(("act_bad",))
         ops += [("call", "f"), ("call", "g")]
         if self.wname == "W3":
